@@ -4,7 +4,9 @@
 //! splitting; several FIELD lists on one RANDOM handle: byte-level record table + the bytes on disk, with
 //! shrinking of a failing history; family `multi`: interleaved histories with 2..3 handles open at the same time on
 //! two files, every prefix a case of its own = comparison after every single operation, frame check on the real
-//! bytes, shrinker).
+//! bytes, shrinker).  RANDOM-file values come from the whole byte range (NUL-free): CHR$(1..31), CHR$(127), CHR$(128..255)
+//! and mixes in lengths 0 / 1 / width - 1 / width / width + 1 (family `fields-bytes` enumerates field x length x class;
+//! `put-get` also compares the raw file); a byte >= 128 is one byte of the record and two (UTF-8) on standard output.
 
 use std::collections::HashMap;
 use std::path::PathBuf;
@@ -361,6 +363,12 @@ fn render(out: &str) -> Vec<u8> {
             let c: u8 = tok.parse().expect("byte");
             if c == 13 || c == 10 {
                 t.extend_from_slice(b"\r\n");
+            } else if c >= 128 {
+                // a BASIC string holds the byte 128..255 as the character U+0080..U+00FF; the printer writes the
+                // string as UTF-8, so the byte arrives on standard output as two bytes (an injective encoding:
+                // the comparison stays byte for byte)
+                t.push(0xC0 | (c >> 6));
+                t.push(0x80 | (c & 0x3F));
             } else {
                 t.push(c);
             }
@@ -629,6 +637,18 @@ fn enumerate(alphabet: &[Op], max_len: usize, f: &mut dyn FnMut(Vec<Op>)) {
 
 const POOL: &[&[u8]] = &[b"ab", b"c d", b"x,y", b" lead", b"trail ", b"", b"12", b"a\tb", b",", b"q\rr", b"s\nt", b"u\r\nv", b"  ", b"H i"];
 
+/// LSET values of the histories that go to the model (families `random-all`, `multi`): the text pool plus values with
+/// control characters and CHR$(127), shorter than / as long as / longer than the fields they go to (widths 1..4),
+/// NUL-free (PUT's padding must be distinguishable from data).
+const RPOOL: &[&[u8]] = &[
+    b"ab", b"c d", b"x,y", b"", b"12", b"a\tb", b"q\rr", b"H i", b"pqrs", b"tuvwx", &[1], &[127], &[31, 66, 7], &[27, 127, 1, 2, 3], &[65, 127], &[8, 9],
+];
+
+/// ... and, for the histories of `multi` in which every handle is opened FOR RANDOM (no text reader can meet the
+/// bytes: the UTF-8 validation of the text readers is outside the model), values with characters of the upper half.
+const RPOOL_HIGH: &[&[u8]] =
+    &[&[200], &[200, 1], &[255, 65], &[128, 129, 130], &[31, 200, 66, 7, 250], &[65, 233], &[233, 65, 66], &[27, 127, 128, 255], &[233], &[160, 161]];
+
 fn random_name(rng: &mut Rng) -> Nm {
     match rng.below(12) {
         0..=3 => Nm::P(0),
@@ -678,7 +698,7 @@ fn random_op(rng: &mut Rng, with_random_files: bool) -> Op {
                 Op::Field { h, fields: vec![(w1, (2 * h) as u8), (rng.range(1, 3) as u32, (2 * h + 1) as u8)] }
             }
         }
-        12 => Op::Lset { v: (2 * h + rng.below(2) as u32) as u8, val: rng.pick(POOL).to_vec() },
+        12 => Op::Lset { v: (2 * h + rng.below(2) as u32) as u8, val: rng.pick(RPOOL).to_vec() },
         13 | 14 => Op::Put { h, n: rng.range(0, 3) as u32 },
         15 => Op::Get { h, n: rng.range(0, 4) as u32 },
         _ => Op::Show((2 * h + rng.below(2) as u32) as u8),
@@ -806,7 +826,57 @@ fn round_trip_case(rng: &mut Rng) -> Case {
     }
 }
 
-/// PUT/GET against a table record number -> bytes kept here.
+// ---- byte values for the RANDOM-file families (after a wave-9 seed) -------------------------------------
+//
+// A BASIC string is a sequence of bytes; the implementation keeps the byte b as the character U+00b, so a byte of
+// the upper half takes two bytes in the Rust string while it is ONE byte of the record.  Whatever PUT / GET compute
+// from a length must count characters.  The values below therefore come from the whole byte range except NUL (PUT's
+// padding must be distinguishable from data) and `~` (the harness's block separator): control characters, CHR$(127),
+// CHR$(128..255), printable ASCII, and mixes; their lengths relative to the field are 0, 1, width - 1, width, width + 1.
+
+#[derive(Clone, Copy, Debug, PartialEq)]
+enum BClass {
+    Ascii,
+    Ctl,
+    Del,
+    High,
+    Mix,
+}
+
+const BCLASSES: [BClass; 5] = [BClass::Ascii, BClass::Ctl, BClass::Del, BClass::High, BClass::Mix];
+
+fn class_byte(rng: &mut Rng, c: BClass) -> u8 {
+    match c {
+        BClass::Ascii => *rng.pick(b"abcXYZ019 ,.;:-_'()\"#%"),
+        BClass::Ctl => rng.range(1, 31) as u8,
+        BClass::Del => 127,
+        BClass::High => rng.range(128, 255) as u8,
+        BClass::Mix => {
+            let k = *rng.pick(&[BClass::Ascii, BClass::Ctl, BClass::Del, BClass::High, BClass::High]);
+            class_byte(rng, k)
+        }
+    }
+}
+
+fn class_value(rng: &mut Rng, c: BClass, n: usize) -> Vec<u8> {
+    let mut v: Vec<u8> = (0..n).map(|_| class_byte(rng, c)).collect();
+    // a mix that happens to have no byte of the upper half gets one (that is what the class is for)
+    if c == BClass::Mix && n > 0 && !v.iter().any(|b| *b >= 128) {
+        let at = rng.below(n as u64) as usize;
+        v[at] = rng.range(128, 255) as u8;
+    }
+    v
+}
+
+/// The lengths a value can have relative to a field of width `w`: 0, 1, w - 1, w, w + 1 (without repetitions).
+fn field_lengths(w: u32) -> Vec<usize> {
+    let mut ls: Vec<usize> = vec![0, 1, w.saturating_sub(1) as usize, w as usize, w as usize + 1];
+    ls.sort();
+    ls.dedup();
+    ls
+}
+
+/// PUT/GET against a table record number -> bytes kept here (and the bytes of the whole file).
 fn put_get_case(rng: &mut Rng) -> Case {
     let h = rng.range(1, 3) as u32;
     let w0 = rng.range(1, 3) as u32;
@@ -819,22 +889,42 @@ fn put_get_case(rng: &mut Rng) -> Case {
     ];
     let mut oracle = vec![some("ok"), some("ok")];
     let mut table: HashMap<u32, (Vec<u8>, Vec<u8>)> = HashMap::new();
+    let mut file: Vec<u8> = vec![];
     let mut max_rec = 0;
     let fix = |b: &[u8], w: u32| {
         let mut v = b.to_vec();
         v.resize(w as usize, 0);
         v
     };
+    // half of the histories keep the old text values, the other half draw bytes of every class with the lengths
+    // 0, 1, width - 1, width, width + 1 (record numbers repeat: a later, shorter value must wipe the earlier one)
+    let bytes_mode = rng.chance(1, 2);
+    let value = |rng: &mut Rng, w: u32| -> Vec<u8> {
+        if bytes_mode {
+            let c = *rng.pick(&BCLASSES);
+            let n = *rng.pick(&field_lengths(w));
+            class_value(rng, c, n)
+        } else {
+            random_line(rng, false)
+        }
+    };
     for _ in 0..rng.range(1, 7) {
         let rec = rng.range(1, 4) as u32;
         if rng.chance(2, 3) {
-            let a = random_line(rng, false);
-            let b = random_line(rng, false);
+            let a = value(rng, w0);
+            let b = value(rng, w1);
             ops.push(Op::Lset { v: v0, val: a.clone() });
             ops.push(Op::Lset { v: v1, val: b.clone() });
             ops.push(Op::Put { h, n: rec });
             oracle.extend([some("ok"), some("ok"), some("ok")]);
-            table.insert(rec, (fix(&a, w0), fix(&b, w1)));
+            let (fa, fb) = (fix(&a, w0), fix(&b, w1));
+            let off = (rec as usize - 1) * len as usize;
+            if file.len() < off + (w0 + w1) as usize {
+                file.resize(off + (w0 + w1) as usize, 0);
+            }
+            file[off..off + w0 as usize].copy_from_slice(&fa);
+            file[off + w0 as usize..off + (w0 + w1) as usize].copy_from_slice(&fb);
+            table.insert(rec, (fa, fb));
             max_rec = max_rec.max(rec);
         } else {
             ops.push(Op::Get { h, n: rec });
@@ -854,7 +944,10 @@ fn put_get_case(rng: &mut Rng) -> Case {
             }
         }
     }
-    Case { family: "put-get", init: vec![], stdin: vec![], ops, trap: false, oracle, oracle_listing: None, ..Default::default() }
+    let _ = max_rec;
+    // the raw bytes of the file: every PUT wrote both fields, padded / cut to their widths, at the record's offset
+    let oracle_listing = Some(format!("0={}", bytes_str(&file)));
+    Case { family: "put-get", init: vec![], stdin: vec![], ops, trap: false, oracle, oracle_listing, ..Default::default() }
 }
 
 /// Console INPUT / LINE INPUT on stdin bytes, and the file forms on a file with the same bytes: the two
@@ -1046,12 +1139,33 @@ fn build_fields_case(plan: &FPlan) -> Option<Case> {
                 }
                 let list = hd.lists.get(hd.current?)?.clone();
                 let mut bytes: Vec<u8> = vec![];
+                let rec_off = (*n as usize - 1) * hd.len;
                 for (w, v) in &list {
                     let mut b = vars.get(v).cloned().unwrap_or_default();
+                    // input distribution: length of the value relative to its field x kind of bytes in it
+                    let rel = match b.len() {
+                        0 => "empty",
+                        l if l < *w as usize => "shorter",
+                        l if l == *w as usize => "exact",
+                        _ => "longer",
+                    };
+                    let kind = if b.iter().any(|c| *c >= 128) {
+                        "with-high-byte"
+                    } else if b.iter().any(|c| *c < 32 || *c == 127) {
+                        "with-control-byte"
+                    } else {
+                        "printable"
+                    };
+                    tags.push(format!("fields.put-value.{}.{}", rel, kind));
+                    // a shorter value over bytes of an earlier PUT that are not NUL: they must not survive
+                    let at = rec_off + bytes.len();
+                    if (b.len()..*w as usize).any(|j| hd.file.get(at + j).is_some_and(|c| *c != 0)) {
+                        tags.push(format!("fields.put-shorter-value-over-earlier-bytes.{}", kind));
+                    }
                     b.resize(*w as usize, 0);
                     bytes.extend(b);
                 }
-                let off = (*n as usize - 1) * hd.len;
+                let off = rec_off;
                 if hd.file.len() < off + bytes.len() {
                     hd.file.resize(off + bytes.len(), 0);
                     hd.written.resize(off + bytes.len(), false);
@@ -1282,16 +1396,26 @@ fn shrink_fields(dir: &PathBuf, plan: &FPlan, sig: &str) -> FPlan {
     }
 }
 
-/// Values that make a misplaced slice visible: consecutive characters of a long cycle.
-struct Fresh(usize);
+/// Values that make a misplaced slice visible: consecutive characters of a long cycle.  In `bytes` mode the cycle
+/// runs through every byte 1..255 except `~` in steps of 37 (control characters, CHR$(127) and the upper half come
+/// up every few characters; 254 consecutive characters are distinct).
+struct Fresh {
+    at: usize,
+    bytes: bool,
+}
 
 impl Fresh {
     fn take(&mut self, n: usize) -> Vec<u8> {
         const CYCLE: &[u8] = b"ABCDEFGHIJKLMNOPQRSTUVWXYZabcdefghijklmnopqrstuvwxyz0123456789#%&*+-/<=>?@";
         (0..n)
             .map(|_| {
-                let c = CYCLE[self.0 % CYCLE.len()];
-                self.0 += 1;
+                let c = if self.bytes {
+                    let b = 1 + ((self.at * 37) % 255) as u8;
+                    if b == b'~' { 200 } else { b }
+                } else {
+                    CYCLE[self.at % CYCLE.len()]
+                };
+                self.at += 1;
                 c
             })
             .collect()
@@ -1326,8 +1450,9 @@ fn exhaustive_field_plans(max_len: usize, f: &mut dyn FnMut(FPlan)) {
             }
             let mut seqs: Vec<Vec<FStep>> = vec![];
             enumerate_steps(&alphabet, max_len, &mut seqs);
-            for seq in seqs {
-                let mut fresh = Fresh(0);
+            for (si, seq) in seqs.into_iter().enumerate() {
+                // every second history writes values from the whole byte range
+                let mut fresh = Fresh { at: si, bytes: si % 2 == 1 };
                 let lists = [shapes[a].clone(), shapes[b].clone()];
                 let mut acts = vec![FAct::Field { h: 1, list: lists[0].clone() }, FAct::Field { h: 1, list: lists[1].clone() }];
                 for st in &seq {
@@ -1365,6 +1490,84 @@ fn enumerate_steps(alphabet: &[FStep], max_len: usize, out: &mut Vec<Vec<FStep>>
     go(alphabet, max_len, &mut vec![], out);
 }
 
+/// Family `fields-bytes` (after a wave-9 seed: PUT padded a field by the UTF-8 length of the value, so a value with
+/// a character of the upper half that was shorter than its field got too little padding).  For every FIELD-list shape
+/// below, every field of every list, every length 0 / 1 / width - 1 / width / width + 1 and every class of bytes
+/// (control characters, CHR$(127), CHR$(128..255), a mix; NUL-free): records 1 and 2 are first filled to the brim with
+/// letters, then record 1 is PUT again with the chosen field holding a value of that length and class (the other
+/// fields: fresh letters, or values of the upper half one character short), then GET 1 and GET 2 with every variable
+/// of every list printed; the closing pass compares every variable with the bytes on disk and the file with the
+/// record table.  Second part: five PUTs to record 1 in a row, every field changing its length from round to round
+/// through all five lengths, GET after each.
+fn byte_field_plans(rng: &mut Rng, f: &mut dyn FnMut(FPlan)) -> (usize, usize) {
+    let shapes: Vec<(u32, Vec<Vec<(u32, u8)>>)> = vec![
+        (4, vec![vec![(4, 0)]]),
+        (8, vec![vec![(4, 0), (4, 1)]]),
+        (6, vec![vec![(1, 0), (2, 1), (3, 2)]]),
+        (9, vec![vec![(3, 0), (3, 1), (3, 2)]]),
+        (5, vec![vec![(2, 0), (2, 1)]]),
+        (6, vec![vec![(2, 0), (4, 1)], vec![(3, 2), (3, 3)]]),
+        (7, vec![vec![(5, 0), (2, 1)], vec![(7, 2)]]),
+    ];
+    let classes = [BClass::Ctl, BClass::Del, BClass::High, BClass::Mix];
+    let (mut n_single, mut n_rounds) = (0, 0);
+    for (len, lists) in &shapes {
+        let fields: Vec<FAct> = lists.iter().map(|l| FAct::Field { h: 1, list: l.clone() }).collect();
+        for list in lists.iter() {
+            for fi in 0..list.len() {
+                for l in field_lengths(list[fi].0) {
+                    for c in classes {
+                        for others_short in [false, true] {
+                            let mut fresh = Fresh { at: n_single, bytes: false };
+                            let mut acts = fields.clone();
+                            for n in [1u32, 2] {
+                                for (w, v) in list {
+                                    acts.push(FAct::Lset { v: *v, val: fresh.take(*w as usize) });
+                                }
+                                acts.push(FAct::Put { h: 1, n });
+                            }
+                            for (k, (w, v)) in list.iter().enumerate() {
+                                let val = if k == fi {
+                                    class_value(rng, c, l)
+                                } else if others_short {
+                                    class_value(rng, BClass::High, *w as usize - 1)
+                                } else {
+                                    fresh.take(*w as usize)
+                                };
+                                acts.push(FAct::Lset { v: *v, val });
+                            }
+                            acts.push(FAct::Put { h: 1, n: 1 });
+                            acts.push(FAct::Get { h: 1, n: 1 });
+                            acts.push(FAct::Get { h: 1, n: 2 });
+                            n_single += 1;
+                            f(FPlan { family: "fields-bytes", handles: vec![(1, 0, *len)], acts });
+                        }
+                    }
+                }
+            }
+            // several PUTs to the same record number, every field running through all its lengths
+            for c in BCLASSES {
+                for start in 0..2usize {
+                    let mut acts = fields.clone();
+                    for round in 0..5usize {
+                        for (k, (w, v)) in list.iter().enumerate() {
+                            let ls = field_lengths(*w);
+                            // descending for even fields, ascending for odd ones, so that shorter follows longer
+                            let idx = if k % 2 == 0 { (ls.len() * 8 - round - start - k) % ls.len() } else { (round + start + k) % ls.len() };
+                            acts.push(FAct::Lset { v: *v, val: class_value(rng, c, ls[idx]) });
+                        }
+                        acts.push(FAct::Put { h: 1, n: 1 });
+                        acts.push(FAct::Get { h: 1, n: 1 });
+                    }
+                    n_rounds += 1;
+                    f(FPlan { family: "fields-bytes", handles: vec![(1, 0, *len)], acts });
+                }
+            }
+        }
+    }
+    (n_single, n_rounds)
+}
+
 /// A random FIELD list for a record of `len` bytes over the variables `pool`.
 fn random_field_list(rng: &mut Rng, len: u32, pool: &[u8]) -> Vec<(u32, u8)> {
     let total = if rng.chance(3, 5) { len } else { rng.range(1, len as i64) as u32 };
@@ -1390,7 +1593,8 @@ fn random_field_list(rng: &mut Rng, len: u32, pool: &[u8]) -> Vec<(u32, u8)> {
 }
 
 fn random_field_plan(rng: &mut Rng) -> FPlan {
-    let mut fresh = Fresh(rng.below(70) as usize);
+    // two plans in three write values from the whole byte range (NUL-free), one keeps the letters and digits
+    let mut fresh = Fresh { at: rng.below(250) as usize, bytes: rng.chance(2, 3) };
     let two = rng.chance(1, 5);
     let mut handles: Vec<(u32, u8, u32)> = vec![(rng.range(1, 3) as u32, 0, *rng.pick(&[2u32, 3, 4, 4, 6, 8, 12]))];
     if two {
@@ -1420,12 +1624,22 @@ fn random_field_plan(rng: &mut Rng) -> FPlan {
                 // fill one list, PUT
                 let l = rng.pick(&lists[i]).clone();
                 for (w, v) in &l {
-                    let len = match rng.below(8) {
-                        0 => w.saturating_sub(1),
-                        1 => w + 1,
+                    // lengths 0, 1, width - 1, width + 1 now and then, the exact width half of the time (record
+                    // numbers repeat: a later, shorter value must leave no byte of an earlier one behind)
+                    let len = match rng.below(10) {
+                        0 => 0,
+                        1 => 1,
+                        2 | 3 => w.saturating_sub(1),
+                        4 => w + 1,
                         _ => *w,
                     };
-                    acts.push(FAct::Lset { v: *v, val: fresh.take(len as usize) });
+                    let val = if fresh.bytes && rng.chance(1, 4) {
+                        let c = *rng.pick(&BCLASSES);
+                        class_value(rng, c, len as usize)
+                    } else {
+                        fresh.take(len as usize)
+                    };
+                    acts.push(FAct::Lset { v: *v, val });
                 }
                 acts.push(FAct::Put { h, n });
             }
@@ -1461,6 +1675,8 @@ fn random_field_plan(rng: &mut Rng) -> FPlan {
 
 fn multi_history(rng: &mut Rng) -> (Init, Vec<Op>, bool) {
     let with_random = rng.chance(1, 2);
+    // half of the histories with RANDOM files use nothing else: their LSET values may hold any byte
+    let random_only = with_random && rng.chance(1, 2);
     let nh = rng.range(2, 3) as u32;
     let mut init: Init = vec![];
     if rng.chance(2, 3) {
@@ -1493,6 +1709,9 @@ fn multi_history(rng: &mut Rng) -> (Init, Vec<Op>, bool) {
                 let mut m = *rng.pick(if with_random { &[Md::I, Md::O, Md::A, Md::R, Md::R][..] } else { &[Md::I, Md::I, Md::O, Md::A, Md::A][..] });
                 if m == Md::I && !exists[f as usize] {
                     m = Md::A;
+                }
+                if random_only {
+                    m = Md::R;
                 }
                 ops.push(Op::Open { h, n: Nm::P(f), m, len: if m == Md::R { 4 } else { 0 } });
                 st[h as usize] = Some((f, m, false));
@@ -1543,7 +1762,10 @@ fn multi_history(rng: &mut Rng) -> (Init, Vec<Op>, bool) {
                             st[h as usize] = Some((f, m, true));
                         } else {
                             ops.push(match rng.below(7) {
-                                0 | 1 => Op::Lset { v: if rng.chance(1, 2) { v0 } else { v1 }, val: rng.pick(POOL).to_vec() },
+                                0 | 1 => Op::Lset {
+                                    v: if rng.chance(1, 2) { v0 } else { v1 },
+                                    val: if random_only && rng.chance(2, 3) { rng.pick(RPOOL_HIGH).to_vec() } else { rng.pick(RPOOL).to_vec() },
+                                },
                                 2 | 3 => Op::Put { h, n: rng.range(1, 3) as u32 },
                                 4 => Op::Get { h, n: rng.range(1, 3) as u32 },
                                 5 => Op::Show(v0),
@@ -1752,6 +1974,22 @@ fn build_cases(rng: &mut Rng, thorough: bool, parts: &mut Vec<String>) -> (Vec<C
             cases.push(c);
         }
     }
+    // every field x every length x every class of bytes; several PUTs to one record with changing lengths
+    let mut n_bytes = 0u64;
+    let (n_single, n_rounds) = byte_field_plans(rng, &mut |plan| {
+        if let Some(c) = build_fields_case(&plan) {
+            n_bytes += 1;
+            cases.push(c);
+        }
+    });
+    parts.push(format!(
+        "family fields-bytes, {} histories: {} = every field of every FIELD list of 7 shapes (1..3 fields, 1..2 lists, a list shorter than the record) x \
+         value length 0 / 1 / width-1 / width / width+1 x bytes of CHR$(1..31) / CHR$(127) / CHR$(128..255) / a mix (random bytes of the class, NUL-free) x \
+         the other fields full of letters / one short with upper-half bytes, PUT over a record that was full of letters, GET of it and of the next record; \
+         {} = five PUTs in a row to record 1 with every field changing its length round by round, GET after each; every variable of every list and the \
+         bytes on disk compared with the record table",
+        n_bytes, n_single, n_rounds
+    ));
     // interleaved histories with several handles open at the same time: every prefix is a case
     let n_multi = if thorough { 6_000 } else { 350 };
     for id in 0..n_multi {
@@ -2209,7 +2447,7 @@ fn main() {
                     format!("property:{}:disk", case.family),
                     run.listing.clone(),
                     want.clone(),
-                    "bytes on disk: OUTPUT = what was printed, APPEND = old contents followed by what was printed",
+                    "bytes on disk: OUTPUT = what was printed, APPEND = old contents followed by what was printed, RANDOM = every record PUT at its offset with each field padded with NUL / cut to its width",
                 );
             }
         }
